@@ -20,6 +20,8 @@
 //	chmod W F M [l]       File.SetMode(M), optionally parking after a directory's local update (updateChildEntry:localDone)
 //	touch W F | fflush W F | fsync W F | rootflush W | lsnames W | size W | fdread W
 //	                      mfs.Touch, File.Flush, File.Sync, Root.Flush, ListNames of /d, descriptor Size, Seek+CtxReadFull
+//	mvprobe W s|w         scratch tree /m: write descriptor (Sync or not) held across Mv of the file's directory; reports
+//	                      cat old path, cat new path, flushed-root old path, flushed-root new path
 //	lschmod W F M         ForEachEntry of F's directory whose callback starts SetMode(M) on F in another goroutine
 package main
 
@@ -756,6 +758,109 @@ func exec(c vh.Case, o *vh.Out) {
 				return tok(b)
 			})
 			o.Kind(f[0])
+		case "mvprobe":
+			// a write descriptor held across Mv of the file's parent directory (scratch sub-tree /m, left empty afterwards):
+			// create /m/x/f = 0000, open it for writing, Mv /m/x /m/y, write 0007, Close; then look at both paths
+			w := wIdx(1)
+			if busyW(w) || modeParked >= 0 {
+				res = "refused"
+				break
+			}
+			sync := f[2] == "s"
+			e.start(w, "", func() string {
+				ctx := context.Background()
+				if _, err := mfs.Lookup(e.root, "/m"); err != nil {
+					if err := mfs.Mkdir(e.root, "/m", mfs.MkdirOpts{}); err != nil {
+						return "err-mkdir"
+					}
+				}
+				if err := mfs.Mkdir(e.root, "/m/x", mfs.MkdirOpts{}); err != nil {
+					return "err-mkdir"
+				}
+				nd := dag.NodeWithData(ft.FilePBData([]byte("0000"), 4))
+				if err := e.dserv.Add(ctx, nd); err != nil {
+					return "err"
+				}
+				if err := mfs.PutNode(e.root, "/m/x/f", nd); err != nil {
+					return "err-put"
+				}
+				n, err := mfs.Lookup(e.root, "/m/x/f")
+				if err != nil {
+					return "err-lookup"
+				}
+				fd, err := n.(*mfs.File).Open(ctx, mfs.Flags{Write: true, Sync: sync})
+				if err != nil {
+					return "err-open"
+				}
+				if err := mfs.Mv(e.root, "/m/x", "/m/y"); err != nil {
+					return "err-mv"
+				}
+				if _, err := fd.WriteAt([]byte("0007"), 0); err != nil {
+					return "err-write"
+				}
+				if err := fd.Close(); err != nil {
+					return "err-close"
+				}
+				catp := func(p string) string {
+					n, err := mfs.Lookup(e.root, p)
+					if err != nil {
+						return "missing"
+					}
+					fi, ok := n.(*mfs.File)
+					if !ok {
+						return "notfile"
+					}
+					rd, err := fi.Open(ctx, mfs.Flags{Read: true})
+					if err != nil {
+						return "err"
+					}
+					b, _ := io.ReadAll(rd)
+					rd.Close()
+					return tok(b)
+				}
+				rootp := func(p string) string {
+					cur, err := e.root.GetDirectory().GetNode()
+					if err != nil {
+						return "err"
+					}
+					var c ipld.Node = cur
+					for _, part := range strings.Split(strings.TrimPrefix(p, "/"), "/") {
+						d, err := uio.NewDirectoryFromNode(e.dserv, c)
+						if err != nil {
+							return "err-dir"
+						}
+						c, err = d.Find(ctx, part)
+						if err != nil {
+							return "missing"
+						}
+					}
+					r, err := uio.NewDagReader(ctx, c, e.dserv)
+					if err != nil {
+						return "err-reader"
+					}
+					b, _ := io.ReadAll(r)
+					return tok(b)
+				}
+				out := []string{catp("/m/x/f"), catp("/m/y/f"), rootp("/m/x/f"), rootp("/m/y/f")}
+				// leave /m empty again
+				if md, err := mfs.Lookup(e.root, "/m"); err == nil {
+					md.(*mfs.Directory).Unlink("x")
+					md.(*mfs.Directory).Unlink("y")
+				}
+				return strings.Join(out, ",")
+			})
+			{
+				wid := w.id
+				catCheck[wid] = func(got string) {
+					p := strings.Split(got, ",")
+					// the property's clause: the descriptor was closed, so the data must be visible in later reads and in the
+					// flushed root — at the path the file has now (/m/y/f)
+					if len(p) == 4 && (p[1] != "0007" || p[3] != "0007") {
+						o.Fail("write-lost-after-mv", "descriptor held across Mv /m/x /m/y, wrote 0007, Close returned nil (sync=%v): /m/y/f reads %s, flushed root %s; old path /m/x/f reads %s, flushed root %s", sync, p[1], p[3], p[0], p[2])
+					}
+				}
+			}
+			o.Kind("mvprobe-" + f[2])
 		case "lschmod":
 			// Directory.ForEachEntry of the file's directory; its callback (which runs with the directory lock held)
 			// starts SetMode on the file in another goroutine and waits until that goroutine cannot go on
